@@ -155,15 +155,8 @@ func main() {
 	for _, id := range props {
 		t1 := time.Now()
 		p := registry[id]
-		c := newCtx(w, id, *tier)
-		for _, r := range p.Rules {
-			if r.ThoroughOnly && *tier != "thorough" {
-				continue
-			}
-			c.Rule(r.ID, r.Text)
-			rr := r
-			c.run(r.ID, func() { rr.Run(c, rr.ID) })
-		}
+		outDir = *out
+		c := runRules(w, p, *tier)
 		if *tier == "thorough" {
 			thoroughExtras(c, p)
 		}
